@@ -109,7 +109,22 @@ class G:
                 a >>= 1
                 j += 1
             out.append(v)
-        rng.shuffle(out)
+        how = rng.random()
+        if how < 0.6 or n < 4:
+            rng.shuffle(out)
+        elif how < 0.8:
+            # pivots far below the diagonal: rows rotated by a large offset (a tall zero-ish block on top of each column)
+            k = rng.randint(n // 2, n - 1)
+            out = out[k:] + out[:k]
+        else:
+            # [[0, I_a], [M, C]]: the first n-a columns have no pivot in the first a rows
+            a = rng.randint(1, n - 1)
+            Mm = self.invertible_rows(n - a) if n - a <= 400 else out[:n - a]
+            if n - a > 400:
+                Mm = [(1 << i) | (rng.getrandbits(i) if i else 0) for i in range(n - a)]
+            top = [1 << (n - a + i) for i in range(a)]
+            bot = [(Mm[i] & ((1 << (n - a)) - 1)) | (rng.getrandbits(a) << (n - a)) for i in range(n - a)]
+            out = top + bot
         return out
 
     # ---------- tokens ----------
